@@ -49,6 +49,11 @@ theorem opaque_address_passes_through (app : Bool) :
     flattened.opaqueClean = false ∧ addrError.opaqueClean = false := by
   cases app <;> decide
 
+/-- **Tie 1 for the hypothesis**: in the code whose errors reach `generalizeErr` or a connection logger
+(cmd/application, pkg/station/lib, the wrapping transports, the connection methods of pkg/dtls) no error
+is flattened into text outside the reviewed configuration-loading sites -/
+theorem no_unreviewed_flattening : CJ.Gen.flattenSites.all (fun f => reviewedFlatten.contains f) = true := by decide
+
 /-- what the tunnel statistics store (`e.Error()` of the generalised error, or nothing) is address-free -/
 theorem stat_text_no_addr (e : Option Err) (hc : ∀ x, e = some x → x.opaqueClean = true) :
     noAddr (statText e) = true := statText_noAddr e hc
